@@ -405,7 +405,9 @@ def proxy_proof_gate(
         # this catches header injection without a separate multi-value API.
         raw = req.get_header(PROOF_HEADER)
         try:
-            if not raw:
+            # Only a missing header is "no proof"; a header that is present
+            # but empty is a malformed proof (spec section 6, row 2).
+            if raw is None:
                 raise ProofError("no_proof", "header absent")
             if "," in raw:
                 raise ProofError("malformed", "multiple proof headers")
